@@ -178,6 +178,30 @@ theorem swapElems_good (m : Matrix α) (hm : Good m) (i1 j1 i2 j2 : Nat) :
   · rw [if_neg h1]
     exact ⟨_, _, C10.swapElems_err_first m _ _, hm⟩
 
+/-- `*m.get_mut((i, j))? = v`: never a fault; the element count is unchanged in both outcomes -/
+theorem setAt_good (m : Matrix α) (hm : Good m) (i j : Nat) (v : α) :
+    ∃ e m', m.setAt i j v = .ok (e, m') ∧ Good m' := by
+  unfold Matrix.setAt
+  rw [C04.get_exact m hm.1 hm.2 i j]
+  by_cases h : i < m.nrows ∧ j < m.ncols
+  · rw [if_pos h]
+    exact ⟨_, _, rfl, ⟨by simp only [Array.size_setIfInBounds]; exact hm.1.size_eq⟩,
+      by simp only [Array.size_setIfInBounds]; exact hm.2⟩
+  · rw [if_neg h]
+    exact ⟨_, _, rfl, hm⟩
+
+/-- `*e = f(*e)` through `get_mut((i, j))?`: never a fault; the element count is unchanged -/
+theorem updAt_good (m : Matrix α) (hm : Good m) (i j : Nat) (f : α → α) :
+    ∃ e m', m.updAt i j f = .ok (e, m') ∧ Good m' := by
+  unfold Matrix.updAt
+  rw [C04.get_exact m hm.1 hm.2 i j]
+  by_cases h : i < m.nrows ∧ j < m.ncols
+  · rw [if_pos h]
+    exact ⟨_, _, rfl, ⟨by simp only [Array.size_modify]; exact hm.1.size_eq⟩,
+      by simp only [Array.size_modify]; exact hm.2⟩
+  · rw [if_neg h]
+    exact ⟨_, _, rfl, hm⟩
+
 theorem overwrite_good (clone : α → α) (d s : Matrix α) (hd : Good d) (hs : Good s) :
     ∃ m', d.overwrite clone s = .ok m' ∧ Good m' := by
   obtain ⟨m', h1, _, h3, h4, _⟩ := C14.overwrite_spec clone d s hd.1 hs.1
@@ -318,6 +342,10 @@ theorem step_inv (es : Nat) (w : World α) (op : Op α) (hw : Inv w) (hop : op.W
     exact inPlace'_inv hw r _ (fun m hm => ⟨_, rfl, ⟨rfl⟩, by simp⟩)
   | drop r =>
     exact ⟨_, rfl, Inv_set_none hw r⟩
+  | setAt r i j v =>
+    exact inPlace_inv hw r _ (fun m hm => setAt_good m hm i j v)
+  | updAt r i j f =>
+    exact inPlace_inv hw r _ (fun m hm => updAt_good m hm i j f)
 
 theorem run_inv_from_aux (es : Nat) (ops : List (Op α)) : ∀ (w : World α), Inv w →
     (∀ op ∈ ops, op.WF) → ∃ w', run es w ops = .ok w' ∧ Inv w' := by
@@ -348,14 +376,33 @@ def hist : List (Op Nat) := [
   .transpose 0, .reshape 0 1 6, .resize 0 2 2 7, .switchOrder 0,
   .withValue 1 3 0 0, .switchOrderWR 1, .resize 1 2 2 9,
   .swapRows 0 0 1, .elementwise 2 0 1 (· + ·), .multiply 3 0 1 (· * ·) (· + ·) 0,
-  .reshape 3 5 5, .clear 1, .drop 0]
+  .reshape 3 5 5, .setAt 2 1 0 77, .setAt 2 2 0 78, .updAt 2 0 1 (· + 1), .updAt 2 0 (2 ^ 64 - 1) (· + 1),
+  .clear 1, .drop 0]
 
 /-- the hypotheses of `run_inv` are satisfiable by this history (its result, computed by the
-compiled model: registers `[none, 0×0, 2×2 [10, 9, 20, 19], 2×2 [108, 90, 108, 90]]`, all column-major) -/
+compiled model: registers `[none, 0×0, 2×2 [10, 77, 21, 19], 2×2 [108, 90, 108, 90]]`, all column-major;
+the second `setAt` and the second `updAt` are out of range: `Err(IndexOutOfBounds)`, nothing changes) -/
 example : ∀ op ∈ hist, op.WF := by
   intro op hop
   simp only [hist, List.mem_cons, List.not_mem_nil, or_false] at hop
-  rcases hop with rfl | rfl | rfl | rfl | rfl | rfl | rfl | rfl | rfl | rfl | rfl | rfl | rfl | rfl <;>
+  rcases hop with rfl | rfl | rfl | rfl | rfl | rfl | rfl | rfl | rfl | rfl | rfl | rfl | rfl | rfl | rfl | rfl | rfl | rfl <;>
     simp [Op.WF, usizeMax]
+
+/-! ### non-vacuity of the element writes: the 2×3 column-major matrix `C04.ex23` (rows `[1, 2, 3]`,
+`[4, 5, 6]`; memory `[1, 4, 2, 5, 3, 6]`): an in-range and an out-of-range write / update -/
+
+example : C04.ex23.setAt 1 2 9 = .ok (.ok (), ⟨.colMajor, ⟨3, 2⟩, #[1, 4, 2, 5, 3, 9]⟩) := by rfl
+example : C04.ex23.setAt 2 0 9 = .ok (.error .indexOutOfBounds, C04.ex23) := by rfl
+example : C04.ex23.setAt 0 3 9 = .ok (.error .indexOutOfBounds, C04.ex23) := by rfl
+example : C04.ex23.updAt 0 1 (· * 10) = .ok (.ok (), ⟨.colMajor, ⟨3, 2⟩, #[1, 4, 20, 5, 3, 6]⟩) := by rfl
+example : C04.ex23.updAt 0 (2 ^ 64 - 1) (· * 10) = .ok (.error .indexOutOfBounds, C04.ex23) := by rfl
+
+/-- the same through `step` / `run`: the failed calls are not faults, the history continues -/
+example : run 8 ⟨[some C04.ex23]⟩
+      [.setAt 0 1 2 9, .setAt 0 2 0 7, .updAt 0 0 1 (· * 10), .updAt 0 0 3 (· * 10), .setAt 5 0 0 1] =
+    .ok ⟨[some ⟨.colMajor, ⟨3, 2⟩, #[1, 4, 20, 5, 3, 9]⟩]⟩ := by rfl
+
+example : (Op.setAt 0 1 2 9 : Op Nat).WF ∧ (Op.updAt 0 0 (2 ^ 64 - 1) (· * 10) : Op Nat).WF := by
+  simp [Op.WF, usizeMax]
 
 end Matreex.C01
